@@ -187,3 +187,52 @@ def csituations(wd, name, c, sit, timeout=300, limit=20, faults=False):
     log(f"[situations] {name}: {len(sch)} schedules into '{sit}', {len(picked)} used "
         f"-> {len(out)} stimuli")
     return out
+
+
+def salt_race(v, wd, thorough):
+    """SaltStore: concurrently starting clients create the salt object (CloudServer::new)."""
+    c = {"Clients": {"c1", "c2", "c3"}, "MaxSalts": 3, "Emit": False, "DevPut": False}
+    cfg = write_cfg(os.path.join(wd, "salt.cfg"), c, init="Init", next_="Next",
+                    invariants=["Agreement"], view="SView")
+    r = tlc_check(wd, "salt-race-3c", "SaltStore.tla", cfg, timeout=300)
+    log(f"[mc] salt-race-3c: {r['distinct']} distinct, violated={r['violated']}")
+    v.mc(r)
+    cfg = write_cfg(os.path.join(wd, "saltdev.cfg"), dict(c, DevPut=True), init="Init", next_="Next",
+                    invariants=["Agreement"], view="SView")
+    r = tlc_check(wd, "salt-race-plain-put", "SaltStore.tla", cfg, timeout=300)
+    v.mc(r, expect_violation="Agreement")
+    # every interleaving of 2 clients (3: a sample), replayed on CloudServer::new
+    cg = dict(c, Clients={"c1", "c2"} if not thorough else {"c1", "c2", "c3"}, Emit=True)
+    cfg = write_cfg(os.path.join(wd, "saltgen.cfg"), cg, init="Init", next_="Next",
+                    invariants=["EmitReplay"])
+    r = tlc_check(wd, "salt-gen", "SaltStore.tla", cfg, timeout=300)
+    sch = replay_lines(r["out"])
+    os.remove(r["out"])
+    if len(sch) > (300 if thorough else 40):
+        sch = random.Random(seed()).sample(sch, 300 if thorough else 40)
+    stim = os.path.join(wd, "salt.stim.ndjson")
+    trace = os.path.join(wd, "salt.trace.ndjson")
+    with open(stim, "w") as f:
+        for i, h in enumerate(sch):
+            f.write(json.dumps({"id": i, "clients": sorted(cg["Clients"]), "steps": h}) + "\n")
+    run_harness(["cloud-replay", "--salt", "--in", stim, "--out", trace], timeout=3000)
+    tcfg = write_cfg(os.path.join(wd, "salt.trace.cfg"),
+                     {"Clients": cg["Clients"], "MaxSalts": 99, "Emit": False, "DevPut": False},
+                     spec="TSpec", invariants=["Agreement"], postcondition="Accepted")
+    rt = tlc_trace(wd, "salt.tv", "TraceSalt.tla", tcfg, trace)
+    if rt["accepted"]:
+        v.traces += len(sch)
+        v.events += sum(1 for _ in open(trace))
+    elif rt["rejected_at"] or rt["violated"]:
+        line = rt["rejected_at"] or rt.get("violated_at_line", 1)
+        k, lines, off = behaviour_at(trace, line)
+        p = write_replay(v.pid, "salt-race", {"kind": "salt-race-rejection", "rejected_event": rt["event"],
+                                              "invariant": rt["violated"],
+                                              "trace": [json.loads(x) for x in lines],
+                                              "what": "clients starting concurrently do not agree on the salt"})
+        v.violations.append((f"salt race: {json.dumps(rt['event'])[:200]} invariant={rt['violated']}", p))
+    else:
+        v.tool_errors.append(f"salt race: trace validation did not finish (see {rt['out']})")
+    v.evaluations += len(sch)
+    log(f"[conform] salt race: {len(sch)} interleavings of concurrent CloudServer::new, "
+        f"accepted={rt['accepted']}")
